@@ -1,6 +1,7 @@
 package syncer
 
 import (
+	"context"
 	"fmt"
 	"strings"
 	"testing"
@@ -108,6 +109,7 @@ type c14cScenario struct {
 	MaxCrashes int    `json:"max_crashes"`
 	Idle       int    `json:"idle_restarts"`
 	Cluster    bool   `json:"cluster"`
+	Soft       bool   `json:"soft"` // explore one in-process restart (same RedisOutput object) after a lost-connection stop
 }
 
 func c14cExec(t *testing.T, scn c14cScenario, ch *mc.Chooser) (rec c14Rec, machinery string) {
@@ -175,6 +177,48 @@ func c14cExec(t *testing.T, scn c14cScenario, ch *mc.Chooser) (rec c14Rec, machi
 			setPark(true)
 			run := biStart(boot.ro, aofRunID, boot.offset)
 			pos := startIdx
+			softLeft := 0
+			// inProcessRestart: what RedisInput.Run does after a non-fatal error - the same
+			// output object is asked for its start point again and Send is called again
+			inProcessRestart := func() bool {
+				setPark(false)
+				sp, err := boot.ro.StartPoint(context.Background(), []string{aofRunID, biRunID2})
+				if err == nil {
+					err = boot.ro.SetRunId(context.Background(), aofRunID)
+				}
+				setPark(true)
+				nr := c14Run{FirstSeq: int(cl.Clock()), BootEnd: int(cl.Clock()), Offset: sp.Offset, SpOffset: sp.Offset}
+				if err != nil {
+					nr.BootErr = err.Error()
+					rec.Runs = append(rec.Runs, rr)
+					rr = nr
+					v := mc.Violation("in-process restart failed on a healthy target", "C14:boot-error:cluster-"+scn.Cfg.Mode, map[string]interface{}{"error": nr.BootErr})
+					rec.Early = &v
+					return false
+				}
+				if sp.IsInitial() || sp.Offset < aofS0 {
+					nr.Offset = aofS0
+				}
+				idx := boundaryIndex(items, nr.Offset)
+				rec.Runs = append(rec.Runs, rr)
+				rr = nr
+				if idx < 0 {
+					v := mc.Violation("resume offset is not the end of a replay unit / stream item", "C14:resume-not-boundary:cluster-"+scn.Cfg.Mode, map[string]interface{}{"offset": nr.Offset})
+					rec.Early = &v
+					return false
+				}
+				pos = idx
+				run = biStart(boot.ro, aofRunID, nr.Offset)
+				return true
+			}
+			if scn.Soft && runNo == 0 {
+				// warm-up: an in-process restart with no traffic (caches "no frontier yet")
+				run.kill()
+				if !inProcessRestart() {
+					break
+				}
+				softLeft = 1
+			}
 			step := 0
 			doEvent := func(f func()) bool {
 				step++
@@ -207,6 +251,9 @@ func c14cExec(t *testing.T, scn c14cScenario, ch *mc.Chooser) (rec c14Rec, machi
 				}
 				flushed = false
 				menu = append(menu, act{kind: "flush"})
+				if softLeft > 0 {
+					menu = append(menu, act{kind: "softstop"})
+				}
 				costs := make([]int, len(menu))
 				for i := range costs {
 					if i > 0 {
@@ -224,6 +271,19 @@ func c14cExec(t *testing.T, scn c14cScenario, ch *mc.Chooser) (rec c14Rec, machi
 					crashed = doEvent(func() { run.feed(it.Raw) })
 				case "flush":
 					crashed = doEvent(func() { time.Sleep(150 * time.Millisecond); vtime.Fire("frontier"); run.wait() })
+				case "softstop":
+					// the connections are lost together with what was in flight; the link stops with
+					// an error and is restarted in-process
+					softLeft--
+					for _, n := range cl.Nodes {
+						n.DropParked()
+						n.KillConns()
+					}
+					run.wait()
+					run.kill()
+					if !inProcessRestart() {
+						guard = 1000
+					}
 				}
 			}
 			early := run.ended
